@@ -609,7 +609,17 @@ Proof. exact rb_outputs_valid. Qed.
 Print Assumptions C04_rb_outputs_valid.
 
 (** ** neutron/interactor/ChipsNeutronElasticInteractor.hh (two-body elastic final state; the CHIPS momentum
-    transfer Q^2 is an oracle with contract 0 <= Q^2 <= 4 p_cm^2 = MomentumTransferSampler's clamp(q_sq, 0, max_q_sq)) *)
+    transfer Q^2 is an oracle; cos(theta) clamped to [-1,1] since /repo 2618c34) *)
+(** valid final state for EVERY Q^2 the sampler can return, including a rounding excess over 4 p_cm^2 *)
+Theorem C04_chips_outputs_valid : forall (p : chips_params R) (q2 : R) s r s',
+  ch_ok p -> ch_mn p <> ch_mtarget p -> unitv (ch_dir p) -> chips_final p q2 s = Some (r, s') ->
+  i_action r = Scattered /\ i_secs r = [] /\ -1 <= ch_cos_theta p q2 <= 1 /\
+  0 <= i_deposit r /\ 0 < i_energy r <= ch_energy p /\ unitv (i_dir r) /\
+  ch_energy p = i_energy r + sec_energy_sum (i_secs r) + i_deposit r /\ exists u, s = u :: s'.
+Proof. exact chips_outputs_valid. Qed.
+Print Assumptions C04_chips_outputs_valid.
+
+(** within the sampler's contract 0 <= Q^2 <= 4 p_cm^2 (= clamp(q_sq, 0, max_q_sq)): recoil = Q^2/(2M) *)
 Theorem C04_chips_energy_conserved : forall (p : chips_params R) (q2 : R) s r s',
   ch_ok p -> 0 <= q2 <= 4 * (ch_cm_p p * ch_cm_p p) -> chips_final p q2 s = Some (r, s') ->
   i_action r = Scattered /\ i_secs r = [] /\
@@ -622,22 +632,35 @@ Print Assumptions C04_chips_energy_conserved.
 
 (** the boosted neutron energy, for every Q^2 and azimuth: E' = E_n - Q^2/(2M) (two-body elastic kinematics) *)
 Theorem C04_chips_boosted_energy : forall (p : chips_params R), ch_ok p -> forall q2 phi : R,
-  fv_e (ch_boosted p q2 phi) = ch_mn p + ch_energy p - q2 / (2 * ch_mtarget p).
+  fv_e (ch_boosted p (ch_cos_raw p q2) phi) = ch_mn p + ch_energy p - q2 / (2 * ch_mtarget p).
 Proof. exact ch_boosted_energy. Qed.
 Print Assumptions C04_chips_boosted_energy.
+
+(** |p'|^2 > 0 for every cosine in [-1,1] unless the target has exactly the neutron's mass *)
+Theorem C04_chips_boosted_momentum_nonzero : forall (p : chips_params R), ch_ok p -> forall c phi : R,
+  -1 <= c <= 1 -> ch_mn p <> ch_mtarget p ->
+  0 < dot (fv_mom (ch_boosted p c phi)) (fv_mom (ch_boosted p c phi)).
+Proof. exact ch_boosted_mom_pos. Qed.
+Print Assumptions C04_chips_boosted_momentum_nonzero.
 
 Theorem C04_chips_max_recoil_le_energy : forall (p : chips_params R), ch_ok p ->
   4 * (ch_cm_p p * ch_cm_p p) / (2 * ch_mtarget p) <= ch_energy p.
 Proof. exact ch_max_recoil. Qed.
 Print Assumptions C04_chips_max_recoil_le_energy.
 
-(** the interactor relies on the sampler's clamp: a negative Q^2 would be hidden by clamp_to_nonneg on the recoil
-    (E_out > T, deposit 0) *)
-Theorem C04_chips_negative_q2_breaks_energy : forall (p : chips_params R) (q2 u : R) s,
-  ch_ok p -> q2 < 0 ->
-  exists r, chips_final p q2 (u :: s) = Some (r, s) /\ i_deposit r = 0 /\ ch_energy p < i_energy r.
-Proof. exact chips_negative_q2_breaks_energy. Qed.
-Print Assumptions C04_chips_negative_q2_breaks_energy.
+(** the code BEFORE the repair ([ch_cos_raw], no clamp): Q^2 above 4 p_cm^2 (rounding on the real sampler; FIXED finding
+    chips-costheta-exceeds-1-by-rounding-nan-direction, /repo 2618c34) gives cos(theta) < -1 and a negative
+    argument of the square root in from_spherical; the clamp maps it to -1 *)
+Theorem C04_chips_costheta_before_repair_refuted : forall (p : chips_params R) (q2 : R),
+  ch_ok p -> 4 * (ch_cm_p p * ch_cm_p p) < q2 ->
+  ch_cos_raw p q2 < -1 /\ 1 - ch_cos_raw p q2 * ch_cos_raw p q2 < 0 /\ ch_cos_theta p q2 = -1.
+Proof. exact chips_costheta_before_repair_refuted. Qed.
+Print Assumptions C04_chips_costheta_before_repair_refuted.
+
+Theorem C04_chips_negative_q2_is_forward : forall (p : chips_params R) (q2 : R),
+  ch_ok p -> q2 < 0 -> ch_cos_theta p q2 = 1.
+Proof. exact chips_negative_q2_is_forward. Qed.
+Print Assumptions C04_chips_negative_q2_is_forward.
 
 (** KNOWN FINDING relbrem-photon-below-cut-by-density-correction-rounding: the SAME model function [rb_energy], run on
     the binary64 instance at E = 1e8 MeV, cut 1e-3 MeV, d_rho = 1.3003e8 MeV^2, candidate draw 0, returns a photon
